@@ -5,8 +5,8 @@ from k1 import Unit
 class EventLoop(Unit):
     """real manual_event_loop / single_thread_context vs coq/Proto/EventLoopDefs.v"""
     name = "event_loop/EventLoop"; driver = "k1_event_loop"; cfg = "shim17"; handler = "eventloop"
-    maxruns = {"quick": 600, "thorough": 40000}
-    nrandom = {"quick": 80, "thorough": 2000}
+    maxruns = {"quick": 600, "thorough": 6000}
+    nrandom = {"quick": 80, "thorough": 500}
     def programs(self, tier):
         if tier == "quick":
             return [("ctx", "2", "1.0"), ("ctx", "1,1", "2.0"), ("ctx", "2,1", "1.1"), ("ctx", "1,1,1", "-"),
@@ -65,8 +65,8 @@ class EventLoop(Unit):
 class AtomicQueue(Unit):
     """real atomic_intrusive_queue<Item,&Item::next> vs coq/Proto/AtomicQueueDefs.v"""
     name = "atomic_queue/AtomicQueue"; driver = "k1_atomic_queue"; cfg = "shim17"; handler = "atomicqueue"
-    maxruns = {"quick": 600, "thorough": 40000}
-    nrandom = {"quick": 80, "thorough": 2000}
+    maxruns = {"quick": 600, "thorough": 2500}
+    nrandom = {"quick": 80, "thorough": 300}
     def programs(self, tier):
         if tier == "quick":
             return [("active", "2", "MMF"), ("active", "1,1", "MMF"), ("active", "2,1", "MDMF"),
@@ -107,8 +107,8 @@ class AtomicQueue(Unit):
 class ThreadPool(Unit):
     """real static_thread_pool vs coq/Proto/ThreadPoolDefs.v"""
     name = "thread_pool/ThreadPool"; driver = "k1_thread_pool"; cfg = "shim17"; handler = "threadpool"
-    maxruns = {"quick": 450, "thorough": 40000}
-    nrandom = {"quick": 60, "thorough": 3000}
+    maxruns = {"quick": 450, "thorough": 6000}
+    nrandom = {"quick": 60, "thorough": 600}
     def programs(self, tier):
         if tier == "quick":
             return [("dtor", "1", "1,1"), ("dtor", "2", "1"), ("dtor", "2", "1,1"), ("dtor", "2", "2,1"),
@@ -157,8 +157,8 @@ class ThreadPool(Unit):
 class NewThread(Unit):
     """real new_thread_context vs coq/Proto/NewThreadDefs.v"""
     name = "new_thread/NewThread"; driver = "k1_new_thread"; cfg = "shim17"; handler = "newthread"
-    maxruns = {"quick": 500, "thorough": 40000}
-    nrandom = {"quick": 60, "thorough": 3000}
+    maxruns = {"quick": 400, "thorough": 8000}
+    nrandom = {"quick": 60, "thorough": 800}
     def programs(self, tier):
         if tier == "quick":
             return [("1", "-"), ("2", "1.0"), ("1,1", "-"), ("1,1", "2.0"), ("2,1", "-"), ("1,1,1", "1.0")]
